@@ -134,7 +134,7 @@ fn one_array_run(profile: Profile, thorough: bool, rseed: u64, journal: runner::
     let cfg = draw_cfg(&mut rng, profile, thorough);
     // crash-point / consumption-split sweeps: every run in thorough C11/C12, 1 in 8 otherwise
     // (C07: every (front, back) consumption split of one drain, dropped afterwards)
-    let sweep = matches!(profile, Profile::C11 | Profile::C12) && (thorough && rng.chance(1, 2) || rng.chance(1, 8)) || profile == Profile::C07 && rng.chance(1, 16);
+    let sweep = matches!(profile, Profile::C11 | Profile::C12) && (thorough && rng.chance(1, 2) || rng.chance(1, 8)) || matches!(profile, Profile::C07 | Profile::C06) && rng.chance(1, 16);
     if sweep {
         let s = rng.next_u64();
         let outs = match cfg.flavour {
